@@ -178,34 +178,3 @@ func VerifC14Queue(h *verifrt.H) {
 	}
 	h.Cover("end")
 }
-
-// VerifC28Lock: after every lock on every key has been released (by unlock or by TTL), no
-// per-key state is kept. Sequential steps over <=2 keys; TTL expiry is an environment event.
-func VerifC28Lock(h *verifrt.H) {
-	l := New().(*lock)
-	n := h.Param("keys", 2)
-	keys := []string{"k1", "k2", "k3"}
-	h.Go("client", func() {
-		for i := 0; i < n; i++ {
-			key := keys[i]
-			id, err := l.Lock(context.Background(), key, time.Second)
-			h.Assert(err == nil, "lock-granted")
-			if h.Choose("release", 2) == 0 {
-				l.Unlock(key, id)
-			}
-		}
-	})
-	h.AtQuiescence(func() {
-		cnt := 0
-		l.queues.Range(func(k, v any) bool {
-			q := v.(*queue)
-			h.Assert(len(q.callers) == 0, "all-released")
-			cnt++
-			return true
-		})
-		h.Known("C28-lock-queues-never-pruned", "no-per-key-state", true)
-		h.Assert(cnt == 0, "no-per-key-state-left")
-		h.ClearKnown()
-		h.Cover("end")
-	})
-}
